@@ -61,7 +61,32 @@ def run(prop: str, tier: str) -> int:
                     V.add("raises", {"kind": type(ex).__name__}, f"angle {a!r} tol {tol!r}: {ex}")
                     continue
                 rows.append(case(len(rows) + 1, prop, a, tol, steps))
-        # the builder's path: q.rot_X(angle=...) uses the default tolerance
+        # the builder's path: q.rot_X/Y/Z(angle=...) with the default tolerance, through the real SDK, real bytes and the
+        # real controller: the rotations that were EXECUTED on the qubit are the steps
+        import inspect
+        import logging
+        logging.disable(logging.CRITICAL)
+        from . import rig
+        from netqasm.sdk.qubit import Qubit
+        dtol = inspect.signature(get_angle_spec_from_float).parameters["tol"].default
+        sdk_angles = [a for a in angles(tier, random.Random(C.seed() * 17 + 3))][: (300 if tier == "quick" else 3000)]
+        sdk_angles += [2 * math.pi - e for e in (1e-3, 1e-4, 5e-5, 2e-5, 1e-5, 1e-6, 1e-7)] + [-e for e in (1e-4, 2e-5, 1e-6)] + [4 * math.pi - 1e-6, math.pi - 1e-6, math.pi + 1e-6]
+        nsdk = 0
+        for j, a in enumerate(sdk_angles):
+            axis = ("rot_X", "rot_Y", "rot_Z")[j % 3]
+            try:
+                conn = rig.VConnection("alice", max_qubits=2)
+                q = Qubit(conn)
+                getattr(q, axis)(angle=a)
+                conn.flush()
+                steps = [(g[2][0], g[2][1]) for g in conn.ex.gate_log if g[0] == axis.lower()]
+            except Exception as ex:
+                V.add("sdk-rotation-raises", {"kind": type(ex).__name__}, f"q.{axis}(angle={a!r}): {type(ex).__name__}: {str(ex)[:160]}")
+                continue
+            nsdk += 1
+            row = case(len(rows) + 1, prop, a, dtol, steps)
+            row["via"] = axis
+            rows.append(row)
         res = C.run_tlc_sharded("AngleTrace", rows, tmp, shards=C.ncpu())
         bad = {}
         for v in res.verdicts:
@@ -86,6 +111,7 @@ def run(prop: str, tier: str) -> int:
         cov = {
             "evaluations": len(rows), "distinct_nontrivial": len({(r["angle"], r["tolerance"]) for r in rows if r["steps"]}),
             "rule": "case = (float angle, tolerance) with the steps the real function returned, accepted or rejected by the TLC-evaluated fixed-point predicate; non-trivial = at least one step; angles: negative, beyond 2 pi, dyadic multiples of pi down to pi/2^32, within tolerance of 0 and 2 pi, random; tolerances 1e-1..1e-9 in ascending and descending call order",
+            "sdk_rotations_executed": nsdk,
             "samples": rows[:2] + rows[-1:], "states": res.distinct, "transitions": res.generated,
             "selftest": "step list off by pi/4 rejected", "exhaustive": False, "checker_cmd": res.cmd,
         }
